@@ -8,6 +8,8 @@ import (
 	"os"
 	"path/filepath"
 	"strings"
+	"sync"
+	"sync/atomic"
 	"time"
 
 	"github.com/spf13/afero"
@@ -50,7 +52,7 @@ type scenario struct {
 	After     [][]string `json:"after"`
 	Removed   [][]string `json:"removed"`
 	Protected [][]string `json:"protected"`
-	Fault     []string   `json:"fault"` // a nested entry whose removal the backend refuses ([] = none)
+	Fault     []string   `json:"fault"`    // a nested entry whose removal the backend refuses ([] = none)
 	Spelling  string     `json:"spelling"` // plain | blanks
 }
 
@@ -89,9 +91,16 @@ func newFs(backend, scratch string) (base afero.Fs, root string, cleanup func(),
 type failFs struct {
 	afero.Fs
 	path string
+	once atomic.Bool // refuse the very first removal, whatever it is of, once (a transient "permission denied")
+	used atomic.Bool
 }
 
-func (f *failFs) refused(name string) bool { return f.path != "" && filepath.Clean(name) == f.path }
+func (f *failFs) refused(name string) bool {
+	if f.once.Load() && f.used.CompareAndSwap(false, true) {
+		return true
+	}
+	return f.path != "" && filepath.Clean(name) == f.path
+}
 func (f *failFs) Remove(name string) error {
 	if f.refused(name) {
 		return &os.PathError{Op: "remove", Path: name, Err: syscall.EACCES}
@@ -139,6 +148,8 @@ func runOp(fs filesystem.FS, op, tdir, link, pattern string) string {
 		switch op {
 		case "Rm":
 			ch <- fs.Rm(tdir)
+		case "RmPrivileged":
+			ch <- fs.RemoveWithPrivileges(ctx, tdir)
 		case "RmLink":
 			ch <- fs.Rm(link)
 		case "RmLinkTrailing":
@@ -219,6 +230,30 @@ func replayOne(sc *scenario, backend, scratch string) (event, error) {
 	}
 	gate := fsgate.NewGate(nil, "")
 	under := base
+	var chowned []string
+	var cmu sync.Mutex
+	if sc.Op == "RmPrivileged" {
+		ff := &failFs{Fs: base}
+		ff.once.Store(true)
+		under = ff
+		// a change of ownership reaches what the path RESOLVES to: every one requested is noted with the place it lands on
+		gate.OnEvent = func(g *fsgate.Event) {
+			if g.Op != "Chown" && g.Op != "Lchown" {
+				return
+			}
+			real := g.Path
+			if g.Op == "Chown" && backend == "os" {
+				if r, err := filepath.EvalSymlinks(g.Path); err == nil {
+					real = r
+				}
+			}
+			if rel, err := filepath.Rel(filepath.Join(root, "T"), real); err != nil || strings.HasPrefix(rel, "..") {
+				cmu.Lock()
+				chowned = append(chowned, "ownership of "+strings.TrimPrefix(real, root+string(filepath.Separator)))
+				cmu.Unlock()
+			}
+		}
+	}
 	if len(sc.Fault) > 0 {
 		under = &failFs{Fs: base, path: filepath.Join(root, filepath.FromSlash(conc(sc.Fault)))}
 		ev.Fault = conc(sc.Fault)
@@ -234,6 +269,9 @@ func replayOne(sc *scenario, backend, scratch string) (event, error) {
 	if ev.OutsideChanged == nil {
 		ev.OutsideChanged = []string{}
 	}
+	cmu.Lock()
+	ev.OutsideChanged = append(ev.OutsideChanged, chowned...)
+	cmu.Unlock()
 	ev.Remaining = after.Paths("T")
 	if ev.Remaining == nil {
 		ev.Remaining = []string{}
